@@ -130,7 +130,7 @@ public:
   template <class OtherExtents>
   friend constexpr bool operator== (const mapping& a, const mapping<OtherExtents>& b) noexcept
   {
-    return a.extents_ == b.extents_;
+    return a.extents() == b.extents();
   }
 
 private:
